@@ -168,6 +168,10 @@ func C02(r *h.Run) {
 		}
 	}
 
+	// ---- 1b. the metadata a handler writes for an error (application keys next to names of the
+	// HTTP message vocabulary and near misses of them) ----
+	errorMetaWritten(r, rng.Fork("meta"), false, "error/metadata-not-written")
+
 	// ---- 2. client decodes crafted status headers ----
 	for _, st := range []string{"1", "5", "16", "17", "4294967295", "05", "016"} {
 		for _, mh := range []string{"", "plain", "50%25%20off", "%E4%BD%A0%e5%a5%bd", "%zz%4", "a%0D%0Ab", "%00%01", "trailing%"} {
